@@ -28,6 +28,12 @@ CHECKS = {
         "technique": "Lean 4 proof (engine for all rule semantics, decide over regenerated rule table) + Lean-checked trace certificates",
         "ref": "DESIGN.md §3 C03",
     },
+    "C04": {
+        "text": "Lean theorems for ALL Unicode strings and all character tables: tokens.create only regroups characters (create_flatten, every one of the nine passes), never yields an empty token (create_no_empty), never indexes out of range; the line layer (read_vhdlfile line splitting, rstrip, blank / whitespace / comment / delimited-comment / preprocessor classification with its cross-line state) is lossless and total for every line and state (classifyLine_flatten, classifyLine_total, readLines_line_end_independent); emit∘parse = identity on the lines read under the per-file contract that the productions refine tokens value-preservingly (getLines_processLines_partial; contract checked per parsed file); the file is written iff --fix and some _fix_violation was invoked (write_iff, no_fix_no_write, clean_file_no_write). Tie: pass-by-pass correspondence of the tokenizer model with vsg/tokens.py exhaustively over all strings up to length 4 (thorough: 5) over a 25-symbol delimiter alphabet plus random Unicode and every corpus line; token-by-token correspondence of the line layer on corpus, variants and comment/line-end stress files through real temp files; real apply_rules / CLI runs with stat before and after.",
+        "technique": "Lean 4 proof for all strings (tokenizer, line layer) + exhaustive-to-a-bound correspondence with the Python implementation",
+        "ref": "DESIGN.md §2.1, §3 C04",
+        "note": "The 246 classifier productions are not modelled: their value-preservation is the explicit Refines contract, checked on every parsed file of the run.",
+    },
     "C07": {
         "text": "Lean theorems: line of a position = 1 + carriage returns before it; extract_tokens' line recomputation is that; update preserves the line count when every violation does; a case-only step keeps every token on its line. Tie: for every step of a whitespace / indent / alignment / case rule in the replayed runs the Lean checker compares the set of changed lines with the set of reported lines and the line count. Partial: the analyses that choose the reported line are not modelled (certificate-only).",
         "technique": "Lean 4 proof (line arithmetic, update homomorphism for line breaks) + Lean-checked trace certificates",
